@@ -1420,7 +1420,12 @@ pub fn run(cfg: &RunCfg) {
       _ => pkg_case(&mut rng),
     }
   };
-  run_cases(cfg, total, |seed, k| {
+  // part (b): registries published with and without embedded module information (stage B2 worlds)
+  let n_registry: u64 = if cfg.tier == Tier::Quick { 3000 } else { 60_000 };
+  run_cases(cfg, total + n_registry, |seed, k| {
+    if k >= total {
+      return crate::props::jsr::gen_case_modinfo(seed, k - total);
+    }
     let mut c = gen_case(seed, k);
     c.meta = ascii_safe(&c.meta);
     c
